@@ -13,12 +13,25 @@
       percentages, bases, charge rates and both rules);
     * the one non-fixpoint of the unchanged code that the model exhibits — a
       fixed line discount finer than the item price — as a kernel-checked
-      counter-example (known finding `c04.fixedAmountFinerThanPresented`).
+      counter-example (known finding `c04.fixedAmountFinerThanPresented`);
+    * the `customer-rates` tag (Model/CustomerRates.lean, parametric in the
+      normalisers), for the code as it is: the customer's country reaches the
+      tax combos inside `calculate`, AFTER the lines were normalised; one
+      `Calculate` sends every combo through one fixed function (closed
+      form); for regime PT with pt-saft-v1 the first calculation is NOT a
+      fixpoint (kernel-checked counter-example backing the known finding
+      `c04.customerRatesThenCountryNormaliser`), the second and every later
+      one is, and untagged documents are fixpoints at once; the source order
+      is pinned over Generated/CustomerRatesFacts.lean.  Clearly separated
+      (`repair_*`): what a possible repair — customer rates applied while
+      normalising — would give; such a repair was written and rejected.
 -/
 import GoblVerif.Spec.C04
 import GoblVerif.Generated.CalcFacts
 import GoblVerif.Proofs.CalcBasics
 import GoblVerif.Proofs.CalcFix
+import GoblVerif.Generated.CustomerRatesFacts
+import GoblVerif.Proofs.CustomerRates
 
 namespace GoblVerif.Props.C04
 open GoblVerif GoblVerif.Calc GoblVerif.Spec.C04
@@ -191,6 +204,199 @@ theorem stmts_Totals_reset_as_modelled : stmts_Totals_reset =
     ["t.Sum = zero", "t.Discount = nil", "t.Charge = nil", "t.TaxIncluded = nil", "t.Total = zero", "t.Taxes = nil", "t.Tax = zero", "t.TotalWithTax = zero", "t.Payable = zero", "t.Advances = nil", "t.Due = nil"] := rfl
 
 end ExpectCalc
+
+/-! ## the customer-rates tag (the code as it is) -/
+
+/-- **customer_rates_closed_form**: one `Calculate` of a billable document leaves the customer normalised
+    and sends every tax combo of lines, discounts and charges through one function, `step`: normalisers on
+    the combo as written, then the customer's country, then `Combo.calculate` — whatever the normalisers
+    are -/
+theorem customer_rates_closed_form (n : CustomerRates.Norms) (k : CustomerRates.Combo → CustomerRates.Combo)
+    (d : CustomerRates.Doc) :
+    CustomerRates.pass n k d =
+      CustomerRates.mapCombos (CustomerRates.step n k (CustomerRates.effective n d)) (CustomerRates.normCustomer n d) :=
+  CustomerRates.pass_eq n k d
+
+/-- **customer_rates_later_calculations**: if normalising a tax identity twice is normalising it once and a
+    combo that went through `step` twice is not changed by a third time, then the second calculation of a
+    document is a fixpoint: calculating three times is calculating twice -/
+theorem customer_rates_later_calculations (n : CustomerRates.Norms) (k : CustomerRates.Combo → CustomerRates.Combo)
+    (d : CustomerRates.Doc)
+    (hp : ∀ c, n.party (n.party c) = n.party c)
+    (hs : ∀ t, CustomerRates.step n k (CustomerRates.effective n d)
+                 (CustomerRates.step n k (CustomerRates.effective n d) (CustomerRates.step n k (CustomerRates.effective n d) t))
+             = CustomerRates.step n k (CustomerRates.effective n d) (CustomerRates.step n k (CustomerRates.effective n d) t)) :
+    CustomerRates.pass n k (CustomerRates.pass n k (CustomerRates.pass n k d))
+      = CustomerRates.pass n k (CustomerRates.pass n k d) := by
+  rw [CustomerRates.pass_eq n k d, CustomerRates.pass_pass_eq n k hp, CustomerRates.pass_pass_eq n k hp]
+  exact CustomerRates.mapCombos_congr _ _ _ hs
+
+/-- **pt_later_calculations_fixpoint**: for regime PT, with or without pt-saft-v1, every document — tagged or
+    not, any customer country, any combos — is settled by its second calculation (countries and extensions) -/
+theorem pt_later_calculations_fixpoint (saft : Bool) (d : CustomerRates.Doc) :
+    CustomerRates.pass (CustomerRates.ptNorms saft) (CustomerRates.comboCalculate "PT")
+        (CustomerRates.pass (CustomerRates.ptNorms saft) (CustomerRates.comboCalculate "PT")
+          (CustomerRates.pass (CustomerRates.ptNorms saft) (CustomerRates.comboCalculate "PT") d))
+      = CustomerRates.pass (CustomerRates.ptNorms saft) (CustomerRates.comboCalculate "PT")
+          (CustomerRates.pass (CustomerRates.ptNorms saft) (CustomerRates.comboCalculate "PT") d) :=
+  customer_rates_later_calculations _ _ d CustomerRates.partyCountry_idem (CustomerRates.pt_step_settles saft _)
+
+/-- **pt_untagged_fixpoint**: without the tag the first calculation already is a fixpoint (regime PT, with or
+    without pt-saft-v1) -/
+theorem pt_untagged_fixpoint (saft : Bool) (d : CustomerRates.Doc) (ht : d.tagged = false) :
+    CustomerRates.pass (CustomerRates.ptNorms saft) (CustomerRates.comboCalculate "PT")
+        (CustomerRates.pass (CustomerRates.ptNorms saft) (CustomerRates.comboCalculate "PT") d)
+      = CustomerRates.pass (CustomerRates.ptNorms saft) (CustomerRates.comboCalculate "PT") d := by
+  have he : CustomerRates.effective (CustomerRates.ptNorms saft) d = none := by simp [CustomerRates.effective, ht]
+  rw [CustomerRates.pass_eq _ _ d, CustomerRates.pass_pass_eq _ _ CustomerRates.partyCountry_idem, he]
+  exact CustomerRates.mapCombos_congr _ _ _ (CustomerRates.pt_step_none_idem saft)
+
+/-- the PT normalisers do not touch category, country and rate key of a combo -/
+theorem pt_normalisers_change_extensions_only (saft : Bool) (t : CustomerRates.Combo) :
+    ((CustomerRates.ptNorms saft).combo t).cat = t.cat ∧ ((CustomerRates.ptNorms saft).combo t).country = t.country
+      ∧ ((CustomerRates.ptNorms saft).combo t).rate = t.rate := by
+  rw [CustomerRates.ptNorms_combo_eq]
+  exact ⟨rfl, rfl, rfl⟩
+
+/-- **current_order_not_a_fixpoint**: the counter-example behind the known finding
+    `c04.customerRatesThenCountryNormaliser` (`$tags` customer-rates, `$addons` pt-saft-v1, customer in NL, one
+    standard-rate VAT combo).  The code applies the customer rates only inside `calculate`, after the
+    normalisers: the first calculation stores `pt-saft-tax-rate` NOR and `pt-region` PT next to country NL,
+    the next one rewrites both to OUT and NL — the calculated document is not a fixpoint -/
+theorem current_order_not_a_fixpoint :
+    let d : CustomerRates.Doc := ⟨true, some "NL", [[⟨"VAT", "", "standard", fun _ => ""⟩]], [], []⟩
+    let once := CustomerRates.pass (CustomerRates.ptNorms true) (CustomerRates.comboCalculate "PT") d
+    let twice := CustomerRates.pass (CustomerRates.ptNorms true) (CustomerRates.comboCalculate "PT") once
+    once.lines.map (·.map fun t => (t.country, t.ext "pt-saft-tax-rate", t.ext "pt-region")) = [[("NL", "NOR", "PT")]]
+    ∧ twice.lines.map (·.map fun t => (t.country, t.ext "pt-saft-tax-rate", t.ext "pt-region")) = [[("NL", "OUT", "NL")]]
+    ∧ twice ≠ once := by
+  refine ⟨by decide, by decide, ?_⟩
+  intro h
+  have h2 := congrArg (fun x : CustomerRates.Doc => x.lines.map (·.map fun t => t.ext "pt-saft-tax-rate")) h
+  revert h2
+  decide
+
+/-- the same without the addon: the PT regime's own `pt-region` is PT after the first calculation and NL
+    after the second -/
+theorem current_order_not_a_fixpoint_without_addon :
+    let d : CustomerRates.Doc := ⟨true, some "NL", [[⟨"VAT", "", "standard", fun _ => ""⟩]], [], []⟩
+    let once := CustomerRates.pass (CustomerRates.ptNorms false) (CustomerRates.comboCalculate "PT") d
+    let twice := CustomerRates.pass (CustomerRates.ptNorms false) (CustomerRates.comboCalculate "PT") once
+    once.lines.map (·.map fun t => (t.country, t.ext "pt-region")) = [[("NL", "PT")]]
+    ∧ twice.lines.map (·.map fun t => (t.country, t.ext "pt-region")) = [[("NL", "NL")]] := by
+  decide
+
+/-- non-vacuity of `customer_rates_later_calculations` / `pt_later_calculations_fixpoint`: a tagged document
+    with a Greek customer written as GR (normalised to EL), a line with two combos (one not VAT), a
+    discount with a pre-set region and a charge with its own country: first and second calculation differ
+    in the charge, the customer is EL after the first -/
+example :
+    let d : CustomerRates.Doc := ⟨true, some "GR",
+      [[⟨"VAT", "", "reduced", fun _ => ""⟩, ⟨"IRS", "", "", fun _ => ""⟩]],
+      [[⟨"VAT", "", "", fun x => if x = "pt-region" then "PT-AC" else ""⟩]],
+      [[⟨"VAT", "ES", "standard", fun _ => ""⟩]]⟩
+    let once := CustomerRates.pass (CustomerRates.ptNorms true) (CustomerRates.comboCalculate "PT") d
+    let twice := CustomerRates.pass (CustomerRates.ptNorms true) (CustomerRates.comboCalculate "PT") once
+    d.tagged = true ∧ once.customer = some "EL"
+    ∧ once.charges.map (·.map fun t => (t.country, t.ext "pt-saft-tax-rate", t.ext "pt-region")) = [[("EL", "OUT", "ES")]]
+    ∧ twice.charges.map (·.map fun t => (t.country, t.ext "pt-saft-tax-rate", t.ext "pt-region")) = [[("EL", "OUT", "GR")]] := by
+  decide
+
+/-! ## a possible repair — statements about `passAlt`, NOT about the code
+
+A repair that applies the customer rates while normalising (after the customer, before lines, discounts and
+charges) was written and rejected: it also changes what es-verifactu-v1 does to tagged documents that
+validate today.  What that order would give is kept here for whoever takes the decision. -/
+
+/-- (possible repair) one `Calculate` would send every combo through `stepAlt` -/
+theorem repair_closed_form (n : CustomerRates.Norms) (k : CustomerRates.Combo → CustomerRates.Combo)
+    (d : CustomerRates.Doc) :
+    CustomerRates.passAlt n k d =
+      CustomerRates.mapCombos (CustomerRates.stepAlt n k (CustomerRates.effective n d)) (CustomerRates.normCustomer n d) :=
+  CustomerRates.passAlt_eq n k d
+
+/-- (possible repair) **repair_would_be_a_fixpoint**: if normalising a tax identity twice is normalising it
+    once and `stepAlt` settles a combo in one application, the first calculation would already be a fixpoint -/
+theorem repair_would_be_a_fixpoint (n : CustomerRates.Norms) (k : CustomerRates.Combo → CustomerRates.Combo)
+    (d : CustomerRates.Doc)
+    (hp : ∀ c, n.party (n.party c) = n.party c)
+    (hs : ∀ t, CustomerRates.stepAlt n k (CustomerRates.effective n d) (CustomerRates.stepAlt n k (CustomerRates.effective n d) t)
+             = CustomerRates.stepAlt n k (CustomerRates.effective n d) t) :
+    CustomerRates.passAlt n k (CustomerRates.passAlt n k d) = CustomerRates.passAlt n k d := by
+  rw [CustomerRates.passAlt_eq n k d, CustomerRates.passAlt_passAlt_eq n k hp]
+  exact CustomerRates.mapCombos_congr _ _ _ hs
+
+/-- (possible repair) for regime PT, with or without pt-saft-v1, every document would be a fixpoint after
+    one calculation -/
+theorem repair_would_be_a_fixpoint_pt (saft : Bool) (d : CustomerRates.Doc) :
+    CustomerRates.passAlt (CustomerRates.ptNorms saft) (CustomerRates.comboCalculate "PT")
+        (CustomerRates.passAlt (CustomerRates.ptNorms saft) (CustomerRates.comboCalculate "PT") d)
+      = CustomerRates.passAlt (CustomerRates.ptNorms saft) (CustomerRates.comboCalculate "PT") d :=
+  repair_would_be_a_fixpoint _ _ d CustomerRates.partyCountry_idem (CustomerRates.pt_stepAlt_idem saft _)
+
+/-- (possible repair, related to the code) **repair_is_todays_explicit_country**: what the repaired order would
+    give for a tagged document is what the code gives TODAY for the document in which the customer's
+    (normalised) country was written on every combo by hand -/
+theorem repair_is_todays_explicit_country (n : CustomerRates.Norms) (k : CustomerRates.Combo → CustomerRates.Combo)
+    (d : CustomerRates.Doc) (c : String) (ht : d.tagged = true) (hc : d.customer = some c) :
+    CustomerRates.passAlt n k d = CustomerRates.pass n k (CustomerRates.mapCombos (CustomerRates.setCountry (n.party c)) d) := by
+  rw [CustomerRates.passAlt_eq n k d, CustomerRates.pass_eq n k]
+  rw [CustomerRates.effective_mapCombos, CustomerRates.normCustomer_mapCombos, CustomerRates.mapCombos_mapCombos]
+  apply CustomerRates.mapCombos_congr
+  intro t
+  have he : CustomerRates.effective n d = some (n.party c) := by simp [CustomerRates.effective, ht, hc]
+  rw [he]
+  rfl
+
+namespace ExpectCustomerRates
+open GoblVerif.Generated.CustomerRates
+
+/-- `Invoice.Normalize`: the customer, then lines, discounts and charges; no customer rates -/
+theorem invoice_rows_normalized_without_rates :
+    CustomerRates.rowsNormalizedWithoutRates "inv" callexprs_Invoice_Normalize = true := by decide
+/-- `Order.Normalize`: the same -/
+theorem order_rows_normalized_without_rates :
+    CustomerRates.rowsNormalizedWithoutRates "ord" callexprs_Order_Normalize = true := by decide
+/-- `Delivery.Normalize`: the same -/
+theorem delivery_rows_normalized_without_rates :
+    CustomerRates.rowsNormalizedWithoutRates "dlv" callexprs_Delivery_Normalize = true := by decide
+
+/-- the three `Calculate` methods normalise first and calculate afterwards -/
+theorem normalize_before_calculate :
+    CustomerRates.before "inv.Normalize(tax.ExtractNormalizers(inv))" "calculate(inv)" callexprs_Invoice_Calculate = true
+    ∧ CustomerRates.before "ord.Normalize(ord.normalizers())" "calculate(ord)" callexprs_Order_Calculate = true
+    ∧ CustomerRates.before "dlv.Normalize(dlv.normalizers())" "calculate(dlv)" callexprs_Delivery_Calculate = true := by
+  decide
+
+/-- `calculate` is where the customer rates are applied, under the tag, before the lines and the tax
+    summary are calculated -/
+theorem calculate_applies_customer_rates :
+    "doc.HasTags(tax.TagCustomerRates)" ∈ GoblVerif.Generated.Calc.conds_calculate
+    ∧ CustomerRates.before "applyCustomerRates" "calculateLines" GoblVerif.Generated.Calc.calls_calculate = true
+    ∧ CustomerRates.before "applyCustomerRates" "Calculate" GoblVerif.Generated.Calc.calls_calculate = true := by
+  decide
+
+theorem callexprs_Invoice_Normalize_as_modelled : callexprs_Invoice_Normalize =
+    ["cbc.NormalizeCode(inv.Series)", "cbc.NormalizeCode(inv.Code)", "normalizers.Each(inv)", "tax.Normalize(normalizers, inv.Tax)", "tax.Normalize(normalizers, inv.Supplier)", "tax.Normalize(normalizers, inv.Customer)", "tax.Normalize(normalizers, inv.Preceding)", "tax.Normalize(normalizers, inv.Lines)", "tax.Normalize(normalizers, inv.Discounts)", "tax.Normalize(normalizers, inv.Charges)", "tax.Normalize(normalizers, inv.Ordering)", "tax.Normalize(normalizers, inv.Payment)"] := rfl
+theorem callexprs_Order_Normalize_as_modelled : callexprs_Order_Normalize =
+    ["cbc.NormalizeCode(ord.Series)", "cbc.NormalizeCode(ord.Code)", "normalizers.Each(ord)", "tax.Normalize(normalizers, ord.Tax)", "tax.Normalize(normalizers, ord.Supplier)", "tax.Normalize(normalizers, ord.Customer)", "tax.Normalize(normalizers, ord.Buyer)", "tax.Normalize(normalizers, ord.Seller)", "tax.Normalize(normalizers, ord.Preceding)", "tax.Normalize(normalizers, ord.Lines)", "tax.Normalize(normalizers, ord.Discounts)", "tax.Normalize(normalizers, ord.Charges)", "tax.Normalize(normalizers, ord.Payment)", "tax.Normalize(normalizers, ord.Delivery)"] := rfl
+theorem callexprs_Delivery_Normalize_as_modelled : callexprs_Delivery_Normalize =
+    ["cbc.NormalizeCode(dlv.Series)", "cbc.NormalizeCode(dlv.Code)", "normalizers.Each(dlv)", "tax.Normalize(normalizers, dlv.Tax)", "tax.Normalize(normalizers, dlv.Supplier)", "tax.Normalize(normalizers, dlv.Customer)", "tax.Normalize(normalizers, dlv.Despatcher)", "tax.Normalize(normalizers, dlv.Receiver)", "tax.Normalize(normalizers, dlv.Preceding)", "tax.Normalize(normalizers, dlv.Lines)", "tax.Normalize(normalizers, dlv.Discounts)", "tax.Normalize(normalizers, dlv.Charges)"] := rfl
+theorem callexprs_Invoice_Calculate_as_modelled : callexprs_Invoice_Calculate =
+    ["inv.Regime.IsEmpty()", "inv.SetRegime(partyTaxCountry(inv.Supplier))", "partyTaxCountry(inv.Supplier)", "inv.Normalize(tax.ExtractNormalizers(inv))", "tax.ExtractNormalizers(inv)", "calculate(inv)", "inv.prepareScenarios()"] := rfl
+theorem callexprs_Order_Calculate_as_modelled : callexprs_Order_Calculate =
+    ["ord.Regime.IsEmpty()", "ord.SetRegime(partyTaxCountry(ord.Supplier))", "partyTaxCountry(ord.Supplier)", "ord.Normalize(ord.normalizers())", "ord.normalizers()", "calculate(ord)"] := rfl
+theorem callexprs_Delivery_Calculate_as_modelled : callexprs_Delivery_Calculate =
+    ["dlv.Regime.IsEmpty()", "dlv.SetRegime(partyTaxCountry(dlv.Supplier))", "partyTaxCountry(dlv.Supplier)", "dlv.Normalize(dlv.normalizers())", "dlv.normalizers()", "calculate(dlv)"] := rfl
+theorem applyCustomerRates_as_modelled :
+    callexprs_applyCustomerRates = ["doc.getCustomer()", "doc.getCustomer()", "doc.getCustomer()", "doc.getLines()", "addCountryToTaxes(l.Taxes, country)", "doc.getDiscounts()", "addCountryToTaxes(d.Taxes, country)", "doc.getCharges()", "addCountryToTaxes(c.Taxes, country)"]
+    ∧ conds_applyCustomerRates = ["doc.getCustomer() == nil || doc.getCustomer().TaxID == nil"]
+    ∧ stmts_applyCustomerRates = ["country := doc.getCustomer().TaxID.Country"] := ⟨rfl, rfl, rfl⟩
+theorem addCountryToTaxes_as_modelled :
+    callexprs_addCountryToTaxes = [] ∧ conds_addCountryToTaxes = [] ∧ stmts_addCountryToTaxes = ["t.Country = country"] :=
+  ⟨rfl, rfl, rfl⟩
+
+end ExpectCustomerRates
 
 /-- non-vacuity of `document_fixpoint`: a document with two taxed lines (one with a percentage discount
 and a fixed charge), a document discount with an explicit base, included VAT, an advance and a due
